@@ -770,3 +770,9 @@ canary('c20-unvalidated', 'C20', DT, "        Self::try_new(year, month, day)\n 
 canary('c20-len-i64', 'C20', RNG, "        let diff = (self.last as i128 - self.first as i128).unsigned_abs();", "        let diff = ((self.last - self.first) as i128).unsigned_abs();", 'OVERFLOW:')
 canary('c20-contains-neg', 'C20', RNG, "                && (self.first as i128 - value as i128) % (-(self.step as i128)) == 0", "                && (self.first as i128 - value as i128) % ((-self.step) as i128) == 0", 'OVERFLOW:')
 canary('c20-struct-name', 'C20', 'crates/edp_elixir_terms/src/map_set.rs', 'OwnedTerm::Atom(Atom::new("Elixir.MapSet")),', 'OwnedTerm::Atom(Atom::new("Elixir.Mapset")),', 'CONST:')
+canary('c06-per-call-bufreader', 'C06', 'crates/edp_client/src/framing.rs',
+       "    pub async fn read_framed<R: AsyncRead + Unpin>(&self, reader: &mut R) -> io::Result<Vec<u8>> {\n",
+       "    pub async fn read_framed<R: AsyncRead + Unpin>(&self, reader: &mut R) -> io::Result<Vec<u8>> {\n        let mut reader = tokio::io::BufReader::new(reader);\n", 'local-reader')
+canary('c05-per-call-bufreader', 'C05', 'crates/edp_client/src/framing.rs',
+       "    pub async fn read_framed<R: AsyncRead + Unpin>(&self, reader: &mut R) -> io::Result<Vec<u8>> {\n",
+       "    pub async fn read_framed<R: AsyncRead + Unpin>(&self, reader: &mut R) -> io::Result<Vec<u8>> {\n        let mut reader = tokio::io::BufReader::new(reader);\n", 'local-reader')
